@@ -470,7 +470,7 @@ func (h *Hop) PayloadSize(nextChanID uint64) uint64 {
 	if h.TotalAmtMsat != 0 {
 		addRecord(
 			record.TotalAmtMsatBlindedType,
-			tlv.SizeTUint64(uint64(h.AmtToForward)),
+			tlv.SizeTUint64(uint64(h.TotalAmtMsat)),
 		)
 	}
 
